@@ -395,6 +395,15 @@ var bCmds = []bCmd{
 	{"check-dir-strict", func(int) []string { return []string{"check", "--no-sandbox", "--strict", "mod"} }, false},
 	{"scan-file", func(int) []string { return []string{"scan", "--no-sandbox", "--db", "sigs.json", "mod/main.go"} }, false},
 	{"worker-diff", func(int) []string { return []string{"internal-worker", "diff", "mod/main.go", "modb/main.go"} }, false},
+	// targets whose module the hardened go command refuses outright (a go.mod asking for a
+	// toolchain that GOTOOLCHAIN=local does not have; a go.mod that does not parse; a go.mod
+	// that would have to be updated under -mod=readonly): whatever the loader does after the
+	// failure, it does with the hardened environment
+	{"check-file-refused-gomod", func(int) []string { return []string{"check", "--no-sandbox", "modx/main.go"} }, false},
+	{"scan-file-unparsable-gomod", func(int) []string {
+		return []string{"scan", "--no-sandbox", "--db", "sigs.json", "mody/main.go"}
+	}, false},
+	{"diff-refused-gomods", func(int) []string { return []string{"diff", "--no-sandbox", "modx/main.go", "modz/main.go"} }, false},
 	{"index", func(run int) []string {
 		return []string{"index", "--name", "T", "--db", fmt.Sprintf("idx%d.json", run), "mod/main.go"}
 	}, false},
@@ -526,6 +535,12 @@ func setupB(dir string) error {
 		"modv/vendor/modules.txt": "",
 		"modv/inner/inner.go":     "package inner\n\nfunc Thrice(x int) int { return 3 * x }\n",
 		"modv/main.go":            "package main\n\nimport (\n\t\"fmt\"\n\n\t\"example.test/vroot/inner\"\n)\n\nfunc work(n int) int {\n\ts := 0\n\tfor i := 0; i < n; i++ {\n\t\ts += inner.Thrice(i)\n\t}\n\treturn s\n}\n\nfunc main() { fmt.Println(work(3)) }\n",
+		"modx/go.mod":             "module example.test/x\n\ngo 1.99\n",
+		"modx/main.go":            "package main\n\nfunc work(n int) int {\n\ts := 0\n\tfor i := 0; i < n; i++ {\n\t\ts += i\n\t}\n\treturn s\n}\n\nfunc main() { println(work(3)) }\n",
+		"mody/go.mod":             "module example.test/y\n\ngo 1.24\n\nrequire (\n",
+		"mody/main.go":            "package main\n\nfunc work(n int) int {\n\ts := 1\n\tfor i := 0; i < n; i++ {\n\t\ts *= 2\n\t}\n\treturn s\n}\n\nfunc main() { println(work(3)) }\n",
+		"modz/go.mod":             "module example.test/z\n\ngo 1.24\n\nrequire example.test/absent v1.2.3\n",
+		"modz/main.go":            "package main\n\nimport \"example.test/absent\"\n\nfunc work(n int) int {\n\treturn absent.F(n)\n}\n\nfunc main() { println(work(3)) }\n",
 		"modb/go.mod":             "module example.test/root\n\ngo 1.24\n\nrequire example.test/dep v0.0.0\n\nreplace example.test/dep => ../mod/dep\n",
 		"modb/main.go":            "package main\n\nimport (\n\t\"fmt\"\n\n\t\"example.test/dep\"\n)\n\nfunc work(n int) int {\n\ts := 1\n\tfor i := n; i > 0; i-- {\n\t\ts += dep.Twice(i)\n\t}\n\treturn s\n}\n\nfunc main() { fmt.Println(work(4)) }\n",
 	}
